@@ -25,7 +25,7 @@ From CGV Require Import Base.NxGraph Resolve.GraphOps Hydro.SquashDefs Hydro.Hyd
 From CGV Require Hydro.Hydrogens Hydro.Squash.
 From CGV Require Import Compose.GraphAdj Compose.CutModel Compose.CutSkeleton.
 From CGV Require Compose.Statements Compose.TextCut Compose.TextCutExamples Reader.Grammar Resolve.Pipeline Dialect.DriverFaults.
-From CGV Require Compose.AnyCut Compose.TextIso Compose.TextIsoExamples Resolve.PipelineFull.
+From CGV Require Compose.AnyCut Compose.TextIso Compose.TextIsoExamples Resolve.PipelineFull Compose.ChainBase Write.PathRound.
 Import ListNotations.
 Open Scope Z_scope.
 
@@ -237,6 +237,32 @@ Definition C01_text_returned_iso_nonvacuous := CGV.Compose.TextIsoExamples.ea_te
 Definition C01_text_returned_iso_hypotheses := CGV.Compose.TextIsoExamples.ea_two_descriptions.
 Definition C01_text_returned_iso_executed := CGV.Compose.TextIsoExamples.ea_returned_iso_executed.
 
+(** the base-graph hypothesis DISCHARGED for base graphs written as a chain "{[#n0]s1[#n1]...[#nk]}" (Compose/ChainBase.v):
+    when the parts of the cut are named n0..nk along the chain, o_i (0..4, written as nothing = # $ or .) is the number of
+    cut bonds between part i-1 and part i, and every cut bond joins consecutive parts ([chain_cut]), the graph the reader
+    model returns for the chain text (Write/PathRound.nx_build, through Reader's reader_sim_lin) IS a base graph of the cut,
+    so the text theorem holds with no hypothesis on the base graph left to compute.  Node names: accepted by the grammar,
+    parsed to attributes with fragname = the name and no atomname ([name_plain]; plain names: PathRound.plain_attrs). *)
+Theorem C01_chain_is_base : forall C A nm0 l, wf_cut C -> CGV.Compose.ChainBase.chain_cut C nm0 l ->
+  (forall n, In n (Write.PathRound.path_names nm0 l) -> aget (S "fragname") (A n) = Some (VStr n)) ->
+  is_base C (Write.PathRound.nx_build A nm0 l).
+Proof. exact CGV.Compose.ChainBase.chain_is_base. Qed.
+Theorem C01_chain_text_level_skeleton : forall fo A C nm0 l defs, wf_cut C -> CGV.Compose.ChainBase.chain_cut C nm0 l ->
+  Forall (fun x => 0 <= fst (fst x) <= 4) l -> Forall (CGV.Compose.ChainBase.name_plain fo A) (Write.PathRound.path_names nm0 l) ->
+  defs <> [] -> CGV.Compose.TextCut.defs_ok fo C defs -> CGV.Compose.TextCut.heavy_atoms C ->
+  exists st fd m1 fg1 m2 fg2,
+    CGV.Compose.TextCutDefs.from_text fo (CGV.Compose.TextCut.cut_string_of (CGV.Compose.ChainBase.chain_body nm0 l) defs) = Ok st /\
+    Pipeline.st_mol st = Write.PathRound.nx_build A nm0 l /\ Pipeline.st_dicts st = [fd] /\ Pipeline.is_all_atom st = true /\
+    Pipeline.st_legacy st = true /\ templates_ok C fd /\
+    resolve_disconnected fd (CGV.Compose.ComposeFlat.next_meta (Pipeline.st_mol st)) = Ok (m1, fg1) /\
+    bonding_step true true (CGV.Compose.ComposeFlat.next_meta (Pipeline.st_mol st)) m1 fg1 = Ok (m2, fg2) /\
+    skeleton C true m2 /\ adj_nodup m2 /\ wf_graph m2 /\ Squash.squash_atoms m2 = Ok m2.
+Proof. exact CGV.Compose.ChainBase.chain_text_level_skeleton. Qed.
+(** the same theorem for ANY base text the reader model reads (the AST form above and the chain form are instances) *)
+Definition C01_text_level_skeleton_body := CGV.Compose.TextCut.text_level_skeleton_body.
+(** non-vacuity: the ethyl acetate string above is the chain A - B - C *)
+Definition C01_chain_text_level_nonvacuous := CGV.Compose.ChainBase.ea_chain_text_level_skeleton.
+
 Print Assumptions C01_bonding_partial.
 Print Assumptions C01_bonding_step.
 Print Assumptions C01_disjointness_test_sound.
@@ -271,3 +297,7 @@ Print Assumptions C01_text_returned_iso.
 Print Assumptions C01_same_mol_test_sound.
 Print Assumptions C01_written_test_sound.
 Print Assumptions C01_text_returned_iso_executed.
+Print Assumptions C01_chain_is_base.
+Print Assumptions C01_chain_text_level_skeleton.
+Print Assumptions C01_text_level_skeleton_body.
+Print Assumptions C01_chain_text_level_nonvacuous.
